@@ -172,6 +172,7 @@ class Action {
     event::Loop::RunId block_cb_run_id_ = 0;
 
     bool is_base_func_invoked_ = false; //! 是否已调用基类函数
+    unsigned finish_reset_count_ = 0;  //! finish() 开始时的 reset_count_
     unsigned reset_count_ = 0;  //! reset() 的次数，用于识别回调中的重入 reset()
     //! 检查使用者在重写的 onStart(),onPause(),onResume(),onStop(),onFinished() 中是否调用了基类的函数
     //! 如果没有调用，则打警告提示
